@@ -58,6 +58,7 @@ def guarded(fn):
             return r
         except Exception as e:
             r = Result(kw.get('name', fn.__name__), [], '')
+            if os.environ.get('MIRSYM_TRACEBACK'): traceback.print_exc()
             r.verdict, r.reason, r.wall_s = 'inconclusive', 'internal error: %s: %s' % (type(e).__name__, traceback.format_exc().splitlines()[-3:]), time.time() - t0
             return r
     w.__name__ = fn.__name__
